@@ -304,14 +304,17 @@ def _inline_setting_readers(trees) -> None:
             if e is None:
                 continue
             params = [a.arg for a in fn.args.args][1:]
-            ok = False
-            if isinstance(e, ast.Subscript) and self_attr(e.value) and key_ok(e.slice, params):
-                ok = True
-            elif isinstance(e, ast.Call) and isinstance(e.func, ast.Attribute) and e.func.attr == "get" and self_attr(e.func.value) and not e.keywords and 1 <= len(e.args) <= 2 \
-                    and key_ok(e.args[0], params) and (len(e.args) == 1 or simple(e.args[1], params)):
-                ok = True
-            elif isinstance(e, ast.Call) and self_attr(e.func) and e.func.attr in readers and not e.keywords and all(simple(a, params) for a in e.args):
-                ok = True
+
+            def lookup(x):
+                if isinstance(x, ast.Subscript) and self_attr(x.value) and key_ok(x.slice, params):
+                    return True
+                if isinstance(x, ast.Call) and isinstance(x.func, ast.Attribute) and x.func.attr == "get" and self_attr(x.func.value) and not x.keywords and 1 <= len(x.args) <= 2 \
+                        and key_ok(x.args[0], params) and (len(x.args) == 1 or simple(x.args[1], params) or (isinstance(x.args[1], (ast.Dict, ast.List, ast.Tuple)) and not ast.unparse(x.args[1]).strip("{}[]()"))):
+                    return True
+                if isinstance(x, ast.Call) and self_attr(x.func) and x.func.attr in readers and not x.keywords and all(simple(a, params) for a in x.args):
+                    return True
+                return False
+            ok = lookup(e) or (isinstance(e, ast.Tuple) and len(e.elts) >= 2 and all(lookup(x) for x in e.elts))
             if ok:
                 readers[name] = (fn, params, decs == ["property"])
     if not readers:
@@ -379,9 +382,12 @@ def _inline_setting_readers(trees) -> None:
             def visit_Name(self, n):
                 return _copy.deepcopy(bound[n.id]) if n.id in bound else n
         e = S().visit(e)
-        inner = expand(e, depth + 1)
-        if inner is not None:
-            e = inner
+        if isinstance(e, ast.Tuple):
+            e.elts = [expand(x, depth + 1) or x for x in e.elts]
+        else:
+            inner = expand(e, depth + 1)
+            if inner is not None:
+                e = inner
         e = fold(e)
         for x in ast.walk(e):
             ast.copy_location(x, node)
